@@ -58,7 +58,7 @@ def generators(tier, seed):
     # (a) packetizer, short real frames, every chunking down to single bytes, both interfaces
     small = [[5], [6], [7], [5, 6], [6, 5], [5, 5]]
     if not q:
-        small += [[7, 5], [6, 7], [5, 5, 5], [5, 6, 5]]
+        small += [[7, 5], [6, 7], [5, 5, 5]]
     g.append(dict(name="pk_all", machine="pk", ins=small, outs=[[]], modes=pk_modes, chunk="all", max_chunks=0,
                   max_calls=1000, max_faults=0, inv="ObsOk PkInv"))
     # (a) packetizer, frames around the backpressure boundary / the reserve step, chunks ending at
@@ -80,7 +80,7 @@ def generators(tier, seed):
                       chunk="edge", max_chunks=4, max_calls=8, max_faults=1, inv="ObsOk PkInv TokInv"))
     # (b) TokioTransport, send direction: below, at and above the backpressure boundary
     g.append(dict(name="tx_all", machine="tokio", ins=[[]], outs=[[5], [7]] if q else [[5], [7], [5, 6]], modes=["free"],
-                  chunk="all", max_chunks=0, max_calls=10 if q else 12, max_faults=1 if q else 2, inv="ObsOk TokInv"))
+                  chunk="all", max_chunks=0, max_calls=10, max_faults=1 if q else 2, inv="ObsOk TokInv"))
     tx_big = [[5, 6], [8191, 5], [8192, 5], [8193, 6], [5, 8187, 22], [65537, 22], [131075, 5]]
     if not q:
         tx_big += [[22, 8169, 5], [8191, 8193], [65536, 65535, 6]]
@@ -92,7 +92,7 @@ def generators(tier, seed):
     # (c) Buffered over a scripted inner transport
     msgs = [[], [6], [6, 6]] if q else [[], [6], [6, 6], [6, 6, 6]]
     g.append(dict(name="buf", machine="buf", ins=msgs, outs=msgs, modes=["free"], chunk="all", max_chunks=0,
-                  max_calls=9 if q else 11, max_faults=1 if q else 2, inv="ObsOk BufInv"))
+                  max_calls=9 if q else 10, max_faults=1 if q else 2, inv="ObsOk BufInv"))
     return g
 
 
